@@ -312,6 +312,28 @@ func checkC19(c *Ctx, r *Report) {
 				}
 			}
 			r.Check(ok, "R19d", c.FnName(fn), "empty value precedes parse", c.Pos(ci.Pos()), "parse.Value(x) dominated by x != \"\"", "parse.Value is reachable with an empty value part: `key=` is no longer ignored")
+			// only an empty value is ignored: once a value was parsed, the argument is not dropped silently (a return of
+			// no config and no error is not reachable from the parse — null, [] and {} parse to nil and must override)
+			for _, ret := range Returns(fn) {
+				allNil := len(ret.Results) > 0
+				for i := range ret.Results {
+					if !IsNilConst(RetVal(ret, i)) {
+						allNil = false
+					}
+				}
+				if !allNil {
+					continue
+				}
+				pb := ci.(ssa.Instruction).Block()
+				reach := pb == ret.Block()
+				for _, su := range pb.Succs {
+					if reachableFromEdge(pb, su, ret.Block(), nil) {
+						reach = true
+					}
+				}
+				r.Check(!reach, "R19d", c.FnName(fn), "only an empty value is ignored", c.Pos(ret.Pos()), "the ignoring return is not reachable once the value was parsed",
+					"an argument whose value was parsed can still be ignored (returned as no config, no error): values that parse to nil (null, [], {}) no longer override an earlier setting")
+			}
 		}
 		Instrs(fn, false, func(in ssa.Instruction) {
 			if mu, ok := in.(*ssa.MapUpdate); ok {
